@@ -246,6 +246,24 @@ namespace tsshapes
                 ++i;
             }
             t.value = "{" + join(val) + "}"; t.modified = "{" + join(mod) + "}";
+            // the bundle's value read AS A WHOLE must show exactly the fields that hold a value, with those values
+            {
+                const TSInputView &whole_view = static_cast<const TSBInputView &>(x).base();
+                if (whole_view.valid())
+                {
+                    const std::string whole = canon(whole_view.value().to_string());
+                    std::string want = "<";
+                    int j = 0;
+                    for (const char *f : {"a", "b"})
+                    {
+                        TSInputView e = static_cast<const TSBInputView &>(x).field(f);
+                        want += std::string{j ? ", " : ""} + f + ": " + (e.valid() ? std::to_string(static_cast<long>(e.value().template checked_as<Int>())) : std::string{"<unset>"});
+                        ++j;
+                    }
+                    want += ">";
+                    if (whole != want) t.value += " !whole-value=" + whole + " but the fields give " + want;
+                }
+            }
             return t;
         }
     };
